@@ -213,6 +213,13 @@ def gen_cases(rng, tier, h):
                     w[2] = "20000"
                     op = " ".join(w)
             c.append(op)
+            if backend in ("tbb", "debug") and not filled and rng.chance(0.2):
+                # a loop whose body throws (these two backends hand the exception to the caller), then the same kind of
+                # loop again: nothing of the failed loop may be left behind
+                ty = rng.pick(["i32", "u32", "i64", "sz"])
+                n = rng.pick([1, 7, 100, 1000])
+                c.append("pforthrow %s %d %d" % (ty, n, rng.randrange(n)))
+                c.append("pfor %s %d plain" % (ty, rng.pick([1, 7, 257, 1000])))
         if filled and rng.chance(0.8):
             c.append("release")
             if rng.chance(0.5):
